@@ -562,6 +562,21 @@ where
             T::from_f64(joint.into_scalar().to_f64()).expect("successful conversion from 64 to T");
         let exp1_obs = self.rng.sample(Exp1);
         let logu = joint - exp1_obs;
+        #[cfg(feature = "verif")]
+        let mut verif_rec = if crate::verif::nuts_trace_enabled() {
+            Some(crate::verif::NutsStepRecord {
+                m: self.m,
+                n_discard: self.n_discard,
+                epsilon: num_traits::ToPrimitive::to_f64(&self.epsilon).unwrap_or(f64::NAN),
+                position_before: crate::verif::tensor_to_f64(&self.position),
+                mom_0: crate::verif::tensor_to_f64(&mom_0),
+                joint_0: num_traits::ToPrimitive::to_f64(&joint).unwrap_or(f64::NAN),
+                logu: num_traits::ToPrimitive::to_f64(&logu).unwrap_or(f64::NAN),
+                ..Default::default()
+            })
+        } else {
+            None
+        };
 
         let mut position_minus = self.position.clone();
         let mut position_plus = self.position.clone();
@@ -658,6 +673,17 @@ where
                     / T::from(n).expect("successful conversion of n from usize to T"),
             );
             let u_run_2 = self.rng.random::<T>();
+            #[cfg(feature = "verif")]
+            if let Some(rec) = verif_rec.as_mut() {
+                rec.doublings.push(crate::verif::NutsDoubling {
+                    direction: v,
+                    n_prime,
+                    s_prime,
+                    moved: s_prime && (u_run_2 < tmp),
+                    alpha: num_traits::ToPrimitive::to_f64(&alpha).unwrap_or(f64::NAN),
+                    n_alpha,
+                });
+            }
             if s_prime && (u_run_2 < tmp) {
                 self.position = position_prime;
             }
@@ -688,7 +714,165 @@ where
         } else {
             self.epsilon = self.epsilon_bar;
         }
+        #[cfg(feature = "verif")]
+        if let Some(mut rec) = verif_rec.take() {
+            rec.n = n;
+            rec.alpha = num_traits::ToPrimitive::to_f64(&alpha).unwrap_or(f64::NAN);
+            rec.n_alpha = n_alpha;
+            rec.position_after = crate::verif::tensor_to_f64(&self.position);
+            rec.epsilon_after = num_traits::ToPrimitive::to_f64(&self.epsilon).unwrap_or(f64::NAN);
+            rec.epsilon_bar_after =
+                num_traits::ToPrimitive::to_f64(&self.epsilon_bar).unwrap_or(f64::NAN);
+            rec.h_bar_after = num_traits::ToPrimitive::to_f64(&self.h_bar).unwrap_or(f64::NAN);
+            crate::verif::nuts_trace_push(rec);
+        }
     }
+
+    /// Verification accessor: `(m, epsilon, epsilon_bar, h_bar, mu, n_discard)`.
+    #[cfg(feature = "verif")]
+    pub fn verif_state(&self) -> (usize, T, T, T, T, usize) {
+        (
+            self.m,
+            self.epsilon,
+            self.epsilon_bar,
+            self.h_bar,
+            self.mu,
+            self.n_discard,
+        )
+    }
+
+    /// Verification accessor: a copy of the chain's random number generator.
+    #[cfg(feature = "verif")]
+    pub fn verif_rng(&self) -> SmallRng {
+        self.rng.clone()
+    }
+
+    /// Verification hook: force the step size used by the next transition.
+    #[cfg(feature = "verif")]
+    pub fn verif_set_epsilon(&mut self, epsilon: T) {
+        self.epsilon = epsilon;
+    }
+
+    /// Verification hook: set the warm-up horizon that `step` compares the counter with.
+    #[cfg(feature = "verif")]
+    pub fn verif_set_n_discard(&mut self, n_discard: usize) {
+        self.n_discard = n_discard;
+    }
+}
+
+#[cfg(feature = "verif")]
+impl<T, B, GTarget> NUTS<T, B, GTarget>
+where
+    T: Float + ElementConversion + Element + SampleUniform + FromPrimitive,
+    B: AutodiffBackend,
+    GTarget: GradientTarget<T, B> + Sync,
+    StandardNormal: rand::distr::Distribution<T>,
+    StandardUniform: rand_distr::Distribution<T>,
+    rand_distr::Exp1: rand_distr::Distribution<T>,
+{
+    /// Verification accessor for the private chains.
+    pub fn verif_chains(&self) -> &Vec<NUTSChain<T, B, GTarget>> {
+        &self.chains
+    }
+
+    /// Verification accessor for the private chains.
+    pub fn verif_chains_mut(&mut self) -> &mut Vec<NUTSChain<T, B, GTarget>> {
+        &mut self.chains
+    }
+}
+
+/// Verification wrapper around the private `find_reasonable_epsilon`.
+#[cfg(feature = "verif")]
+pub fn verif_find_reasonable_epsilon<B, T, GTarget>(
+    position: Tensor<B, 1>,
+    mom: Tensor<B, 1>,
+    gradient_target: &GTarget,
+) -> T
+where
+    T: Float + Element,
+    B: AutodiffBackend,
+    GTarget: GradientTarget<T, B> + Sync,
+{
+    find_reasonable_epsilon(position, mom, gradient_target)
+}
+
+/// Verification wrapper around the private `build_tree`.
+#[cfg(feature = "verif")]
+#[allow(clippy::too_many_arguments, clippy::type_complexity)]
+pub fn verif_build_tree<B, T, GTarget>(
+    position: Tensor<B, 1>,
+    mom: Tensor<B, 1>,
+    grad: Tensor<B, 1>,
+    logu: T,
+    v: i8,
+    j: usize,
+    epsilon: T,
+    gradient_target: &GTarget,
+    joint_0: T,
+    rng: &mut SmallRng,
+) -> (
+    Tensor<B, 1>,
+    Tensor<B, 1>,
+    Tensor<B, 1>,
+    Tensor<B, 1>,
+    Tensor<B, 1>,
+    Tensor<B, 1>,
+    Tensor<B, 1>,
+    Tensor<B, 1>,
+    Tensor<B, 1>,
+    usize,
+    bool,
+    T,
+    usize,
+)
+where
+    T: Float + Element,
+    B: AutodiffBackend,
+    GTarget: GradientTarget<T, B> + Sync,
+{
+    build_tree(
+        position,
+        mom,
+        grad,
+        logu,
+        v,
+        j,
+        epsilon,
+        gradient_target,
+        joint_0,
+        rng,
+    )
+}
+
+/// Verification wrapper around the private `stop_criterion`.
+#[cfg(feature = "verif")]
+pub fn verif_stop_criterion<B>(
+    position_minus: Tensor<B, 1>,
+    position_plus: Tensor<B, 1>,
+    mom_minus: Tensor<B, 1>,
+    mom_plus: Tensor<B, 1>,
+) -> bool
+where
+    B: AutodiffBackend,
+{
+    stop_criterion(position_minus, position_plus, mom_minus, mom_plus)
+}
+
+/// Verification wrapper around the private `leapfrog`.
+#[cfg(feature = "verif")]
+pub fn verif_leapfrog<B, T, GTarget>(
+    position: Tensor<B, 1>,
+    mom: Tensor<B, 1>,
+    grad: Tensor<B, 1>,
+    epsilon: T,
+    gradient_target: &GTarget,
+) -> (Tensor<B, 1>, Tensor<B, 1>, Tensor<B, 1>, Tensor<B, 1>)
+where
+    T: Float + ElementConversion,
+    B: AutodiffBackend,
+    GTarget: GradientTarget<T, B>,
+{
+    leapfrog(position, mom, grad, epsilon, gradient_target)
 }
 
 #[allow(dead_code)]
